@@ -357,7 +357,9 @@ func pairAlphabets(thorough bool) map[string][]call {
 			}
 		}
 	}
-	for _, s := range []string{"1234567", "12345670", "12345678", "590123412345", "5901234123457", "0000000", "9999999", "12", "12345a7", "59012341234x", "1234567B", "x234567"} {
+	for _, s := range []string{"1234567", "12345670", "12345678", "590123412345", "5901234123457", "0000000", "9999999", "12", "12345a7", "59012341234x", "1234567B", "x234567",
+		// prefixes of the 13-digit number above (anything that recognises "the same number again" by a prefix)
+		"5901234", "59012344", "59012341", "590123412", "5901234123"} {
 		add("ean", []byte(s))
 	}
 	for _, s := range []string{"AB", "A1B", "C0123456789-$:/.+D", "A12E", "D9A"} {
